@@ -183,6 +183,42 @@ def crafted_bitpacked(rng, count):
     return out
 
 
+def width0_file(rng, ptype, n, plan):
+    """A one-entry dictionary whose index stream is written at bit width 0 (what parquet-mr does for a single-entry
+    dictionary; tools/pq.py never goes below width 1): the hybrid stream is encoded at width 0 and the width byte of
+    every data page is patched from 1 to 0 in place (REQUIRED column, UNCOMPRESSED: it is the first body byte).
+    The result is validated with the independent reader before it is used."""
+    tl = 3 if ptype == "FIXED_LEN_BYTE_ARRAY" else 0
+    root = pq.SchemaNode("schema", "REQUIRED", children=[pq.SchemaNode("v", "REQUIRED", ptype, tl)])
+    v = pq.gen_leaf_value(rng, ptype, tl, True)
+    pages = []
+    for c in pq.split_pages(rng, [0] * n, n, max_pages=3):
+        p = pq.PageSpec(c, rng.choice(["RLE_DICTIONARY", "PLAIN_DICTIONARY"]))
+        p.idx_plan = plan
+        pages.append(p)
+    col = pq.ColumnSpec([0] * n, [0] * n, [v] * n, pages, "UNCOMPRESSED")
+    col.dictionary = [v]
+    col.dict_offset = rng.choice(["present", "absent"])
+    spec = pq.FileSpec(root, [pq.RowGroupSpec(n, [col])])
+    spec.features = {"directed": "index_width_0", "unsupported": None, "dictionary": True, "dict_offset": col.dict_offset}
+    old = pq.rle_hybrid_encode
+    pq.rle_hybrid_encode = lambda values, width, plan=None: old(values, 0 if width == 1 else width, plan)
+    try:
+        data = bytearray(pq.write_file(spec, rng))
+    finally:
+        pq.rle_hybrid_encode = old
+    for pg in pq.read_file(bytes(data), decode_values=False).chunks[0][0].pages:
+        if pg.kind == "DATA_PAGE":
+            if data[pg.body_offset] != 1:
+                raise RuntimeError("width0_file: unexpected page layout")
+            data[pg.body_offset] = 0
+    data = bytes(data)
+    pf = pq.read_file(data)
+    if pf.errors() or pf.levels() != spec.truth():
+        raise RuntimeError("width0_file: the independent reader does not read the constructed file back")
+    return spec, data
+
+
 class _Patched:
     """Temporarily teach the reference writer a value encoding id the format does not define (the body is written as
     PLAIN): used for 'every other integer in the encoding field'."""
@@ -270,6 +306,11 @@ def gen_cases(tier, rng):
             for extra in (0, 1, 3):
                 add(f"idxwidth/n{nd}_x{extra}/{rnd}", index_width_spec(rng, nd, extra, rng.choice(["INT32", "INT64", "DOUBLE", "INT96"])),
                     "values", family="idxwidth")
+    # C1b. index streams at bit width 0 (single-entry dictionary)
+    for i in range(60 if thorough else 15):
+        spec, data = width0_file(rng, rng.choice(["INT32", "INT64", "DOUBLE", "INT96", "BYTE_ARRAY", "FIXED_LEN_BYTE_ARRAY"]),
+                                 rng.choice([1, 7, 8, 9, 30, 100]), rng.choice([None, "random", "random_nozero"]))
+        add(f"idxwidth0/{i}", spec, "values", data=data, family="idxwidth")
     # C2. long streams: run headers of two varint bytes (RLE runs > 63 values, bit-packed runs > 63 groups), pages of
     #     thousands of entries
     for i in range(40 if thorough else 8):
